@@ -83,7 +83,7 @@ def removeDanglingFrom (only : Option (List Nat)) (c : Circ) (root : Nat) : Opti
 /-- `c.remove_dangling_nodes(root)` -/
 def removeDanglingObj (c : Circ) (root : Nat) : Option Circ := removeDanglingFrom none c root
 
-/-! ## `substitute(node, impl)` (circuit.py:382-459); `m` = the implementation circuit -/
+/-! ## `substitute(node, impl)` (circuit.py:382-463); `m` = the implementation circuit -/
 /-- `n in ios` for `ios = set(impl.io_nodes)` -/
 def inIos (m : Circ) (n : Nat) : Bool := m.io.any fun j => sameNode (m.nobj j) (m.nobj n)
 
@@ -223,6 +223,19 @@ def connectOut (m : Circ) (nm : NMap) (st : Circ × List Nat) (p : Nat × Option
     | none => none
     | some (D, dp) => some (setDriver st.1 ll D dp, st.2)
 
+/-- one iteration of the loop that makes the outputs of the copied forks dense again (an unconnected output pin may leave a
+gap): `if n.kind == '__fork__' and any(l is None for l in n.outs): n.outs = [l for l in n.outs if l is not None];
+for i, l in enumerate(n.outs): l.driver_pin = i` -/
+def densifyNode (c : Circ) (v : Nat) : Circ :=
+  let o := c.nobj v
+  if o.kind == FORK && o.outs.any (·.isNone) then
+    let outs2 : Pins := (o.outs.filterMap id).map some
+    { c with nobj := upd c.nobj v { o with outs := outs2 }, lobj := renumber c.lobj outs2 0 }
+  else c
+
+/-- `for n in node_map.values(): ...` -/
+def densify (c : Circ) (nm : NMap) : Circ := (nm.map (·.2)).foldl densifyNode c
+
 /-- `if n.circuit is not None: self.remove_dangling_nodes(n, own_nodes)` -/
 def danglingStep (own : List Nat) (c : Circ) (n : Nat) : Option Circ :=
   if (c.nobj n).alive then removeDanglingFrom (some own) c n else some c
@@ -256,7 +269,7 @@ def substituteObj (c : Circ) (i : Nat) (m : Circ) : Option Circ :=
     | some (c3, nm) =>
       match substConnect c i m sh nm c3 with
       | none => none
-      | some (c5, dang) => foldO (danglingStep (nm.map (·.2))) c5 dang
+      | some (c5, dang) => foldO (danglingStep (nm.map (·.2))) (densify c5 nm) dang
 
 /-! ## `resolve_tlib_cells(tlib)` (circuit.py:461-468) -/
 /-- `tlib.cells`: kind ↦ implementation circuit -/
@@ -361,68 +374,19 @@ def desNotPort (m : Circ) : Bool :=
 def implStatic (m : Circ) : Bool := invOK m && decide m.io.Nodup && desNotPort m
 
 /-- structural well-formed use of `substitute`: `substKinds`, `noSelfLoop` on the host side, `implStatic` on the
-implementation side.  Implies `substPre0` on well-formed hosts (Proofs/CircObjSubstStatic.lean). -/
+implementation side.  On well-formed hosts it implies `substPre` (Proofs/CircObjSubstStatic.lean, CircObjSubstFull.lean). -/
 def substStatic (c : Circ) (i : Nat) (m : Circ) : Bool :=
   c.nodes.contains i && substKinds c i m && noSelfLoop c i && implStatic m
-
-/-- the regular case: every output of the instance is connected, an output port of the implementation has exactly one
-input line, and a port of the implementation that becomes a fork in the host has gap-free outputs.  Together with
-`substStatic` this gives `WFc` of the result without evaluating anything along the run. -/
-def substRegular (c : Circ) (i : Nat) (m : Circ) : Bool :=
-  match implShape m with
-  | none => true
-  | some sh =>
-    (c.nobj i).outs.length == sh.outLines.length && (c.nobj i).outs.all (·.isSome) &&
-    m.io.all (fun O => decide ((m.nobj O).ins.length ≤ 1)) &&
-    m.io.all (fun n => !(forkCond m n) || (m.nobj n).outs.all (·.isSome))
 
 /-- well-formed use of `resolve_tlib_cells`: every substitution it performs is one -/
 def resolvePre (lib : Lib) (c : Circ) : Bool :=
   foldG (resolveStep lib) (fun c n => match lib.find (c.nobj n).kind with | some m => substPre c n m | none => true) c c.nodes
 
-/-! ### open output pins: the predicted set of occupied output pins of every copied fork is downward closed -/
-/-- the instance pin of the implementation output with line `l` is connected -/
-def outConnected (c : Circ) (i : Nat) (sh : Shape) (l : Nat) : Bool :=
-  (sh.outLines.zip (padTo (c.nobj i).outs sh.outLines.length)).any fun pr => pr.1 == l && pr.2.isSome
-
-/-- the implementation node gets an image in the host (every node that is not a port; ports for which a fork is made) -/
-def hasImage (m : Circ) (n : Nat) : Bool := !(inIos m n) || forkCond m n
-
-/-- output pin `p` of the image of implementation node `n` holds a line after `substitute`: the implementation line there
-is copied (its reader has an image) or leads to an output port whose instance pin is connected; for a port that is read
-inside the implementation, the one extra pin `len(n.outs)` holds the host line iff the port's instance pin is connected -/
-def setPin (c : Circ) (i : Nat) (m : Circ) (sh : Shape) (n p : Nat) : Bool :=
-  if p < (m.nobj n).outs.length then
-    match pin (m.nobj n).outs p with
-    | none => false
-    | some l => match (m.lobj l).reader with
-      | none => false
-      | some r => hasImage m r || outConnected c i sh l
-  else
-    p == (m.nobj n).outs.length && inIos m n && decide ((m.nobj n).outs.length > 0) &&
-      match pin (m.nobj n).ins 0 with
-      | some l => outConnected c i sh l
-      | none => false
-
-/-- the image of `n` is a fork -/
-def isForkImage (m : Circ) (n : Nat) : Bool := if inIos m n then forkCond m n else (m.nobj n).kind == FORK
-
-/-- open output pins leave no gap: for every implementation node whose image is a fork, the occupied pins form an
-initial segment -/
-def substOpenOK (c : Circ) (i : Nat) (m : Circ) : Bool :=
-  match implShape m with
-  | none => true
-  | some sh =>
-    m.nodes.all fun n => !(isForkImage m n) ||
-      (List.range ((m.nobj n).outs.length + 1)).all fun p => !(setPin c i m sh n p) ||
-        (List.range p).all fun q => setPin c i m sh n q
-
-/-- structural well-formed use of `resolve_tlib_cells`: every substitution it performs is a structural one with
-`substRegular` or `substOpenOK` (checked on the circuit as it is when the substitution starts; nothing inside a
-substitution is evaluated) -/
+/-- structural well-formed use of `resolve_tlib_cells`: every substitution it performs satisfies `substStatic` (checked on
+the circuit as it is when the substitution starts; nothing inside a substitution is evaluated) -/
 def resolveStatic (lib : Lib) (c : Circ) : Bool :=
   foldG (resolveStep lib) (fun c n => match lib.find (c.nobj n).kind with
-    | some m => substStatic c n m && (substRegular c n m || substOpenOK c n m)
+    | some m => substStatic c n m
     | none => true) c c.nodes
 
 /-! ## histories with the three operations -/
